@@ -372,3 +372,29 @@ M('C08', 'c08-hang-blocks-others', 'openhtf/plugs/__init__.py',
   "      if thread.is_alive():\n        thread.kill()\n        _LOG.warning('Killed tearDown for plug %s after timeout.',\n                     plug_instance)",
   "      if thread.is_alive():\n        thread.kill()\n        _LOG.warning('Killed tearDown for plug %s after timeout.',\n                     plug_instance)\n        break",
   'a hanging tearDown prevents the remaining plugs from being torn down')
+
+# ---------------------------------------------------------------- C03
+M('C03', 'c03-skip-teardown-after-terminal-main', 'openhtf/core/test_executor.py',
+  "    else:\n      main_ret = _ExecutorReturn.CONTINUE\n    if group.teardown:",
+  "    else:\n      main_ret = _ExecutorReturn.CONTINUE\n    if group.teardown and main_ret == _ExecutorReturn.CONTINUE:",
+  'group teardown skipped when main was terminal')
+M('C03', 'c03-teardown-abortable', 'openhtf/core/test_executor.py',
+  "        if self._full_abort.is_set():\n          return _ExecutorReturn.TERMINAL",
+  "        if self._abort.is_set():\n          return _ExecutorReturn.TERMINAL",
+  'a single abort skips the remaining teardown nodes')
+M('C03', 'c03-teardown-runs-without-setup', 'openhtf/core/test_executor.py',
+  "      if setup_ret != _ExecutorReturn.CONTINUE:\n        return setup_ret",
+  "      if setup_ret != _ExecutorReturn.CONTINUE:\n        if group.teardown: self._execute_sequence(group.teardown, subtest_rec, True)\n        return setup_ret",
+  'teardown runs although setup did not complete')
+M('C03', 'c03-teardown-terminal-not-propagated', 'openhtf/core/test_executor.py',
+  "    return _more_critical(main_ret, teardown_ret)",
+  "    return main_ret",
+  'a terminal result inside teardown does not propagate outward')
+M('C03', 'c03-teardown-kill-allowed', 'openhtf/core/test_executor.py',
+  "    with self._teardown_phases_lock:\n      for node in phase_sequence.nodes:",
+  "    if True:\n      for node in phase_sequence.nodes:",
+  'teardown phases no longer hold the lock that keeps a single abort from killing them')
+M('C03', 'c03-teardown-stops-at-terminal', 'openhtf/core/test_executor.py',
+  "        ret = _more_critical(ret, self._execute_node(node, subtest_rec, True))\n",
+  "        ret = _more_critical(ret, self._execute_node(node, subtest_rec, True))\n        if ret == _ExecutorReturn.TERMINAL: break\n",
+  'teardown sequence stops at its first terminal node')
